@@ -77,6 +77,7 @@ def axis_discipline(prog: Program, rep: Report, rule: str) -> None:
                 if fi.cls != cname or not {"X", "Y"} <= set(fi.params):
                     continue
                 prog.consulted.add(mname)
+                fi = prog.lview(fi)  # a shared `_cell_index(X, Y)` helper reads as its body
                 for sub in walk_no_nested(fi.node):
                     if not (isinstance(sub, ast.Subscript) and isinstance(sub.value, ast.Attribute) and unparse(sub.value.value) == "self" and isinstance(sub.slice, ast.Tuple) and len(sub.slice.elts) == 2):
                         continue
